@@ -268,6 +268,11 @@ def dueNow (c : Clock) : Bool :=
 /-- the seconds a line lets pass without polling the session -/
 def waitSum (steps : List String) : Nat := (steps.filterMap parseWait).foldl (· + ·) 0
 
+/-- time that may pass without the hold timer's tick being taken: the `W<d>` steps, and for every `T` at most one
+keepalive interval (hold/3, at least 1 s); c08.rs refuses the same lines -/
+def unpolledBound (localHold : Nat) (steps : List String) : Nat :=
+  waitSum steps + (steps.filter (· == "T")).length * max 1 (localHold / 3)
+
 /-- what of a step's output reaches the outgoing queue (`send_pdu` = `try_send`) -/
 def queued (room : Nat) : StepResult → StepResult
   | .next s ok outs => .next s ok (accepted room outs)
@@ -400,7 +405,7 @@ def handle (ws : List String) : String :=
     | some cfg, some s =>
       -- un-polled time stays below two hold intervals: the hold timer never has two ticks outstanding when the
       -- session resets it (see `clockWait`)
-      if cfg.localHold != 0 && waitSum steps ≥ 2 * cfg.localHold then "bad-op" else
+      if cfg.localHold != 0 && unpolledBound cfg.localHold steps ≥ 2 * cfg.localHold then "bad-op" else
       if !rawOk steps then "bad-op" else
       match runHistQ cfg s (Clock.ofSt cfg s) pduCap steps with
       | some l => " ; ".intercalate l
